@@ -27,6 +27,7 @@ type SpecEnv struct {
 	pkg  *types.Package
 	fn   *ssa.Function
 	depth int
+	lp   *Loop // loop whose contract is being evaluated (before its frame is pushed)
 }
 
 func (e *SpecEnv) with(name string, v Val) *SpecEnv {
@@ -90,6 +91,11 @@ func (e *SpecEnv) resolveType(txt string) types.Type {
 		return types.Typ[types.UnsafePointer]
 	case "error":
 		return types.Universe.Lookup("error").Type()
+	case "any":
+		return types.NewInterfaceType(nil, nil)
+	}
+	if strings.HasPrefix(txt, "map[string]") {
+		return types.NewMap(tString, e.resolveType(txt[len("map[string]"):]))
 	}
 	if strings.HasPrefix(txt, "*") {
 		return types.NewPointer(e.resolveType(txt[1:]))
@@ -197,6 +203,38 @@ func intLitStr(s string) string {
 func (env *SpecEnv) evalIdent(name string) Val {
 	if v, ok := env.vars[name]; ok {
 		return v
+	}
+	// hidden loop state: $idx (range-over-slice index), $seen (set of keys already visited by a range-over-map)
+	if name == "$idx" || name == "$seen" {
+		var cands []*Loop
+		if env.lp != nil {
+			cands = append(cands, env.lp)
+		}
+		for i := len(env.st.loops) - 1; i >= 0; i-- {
+			cands = append(cands, env.st.loops[i].L)
+		}
+		for _, l := range cands {
+			if name == "$idx" && l.RangeIdx != nil {
+				cells := env.st.cells
+				if env.cur != nil {
+					cells = env.cur.Cells
+				}
+				if v, ok := cells[l.RangeIdx]; ok {
+					return v
+				}
+				return mkInt("(- 1)")
+			}
+			if name == "$seen" && l.MapRange != nil {
+				iters := env.st.iters
+				if env.cur != nil {
+					iters = env.cur.Iters
+				}
+				if it, ok := iters[l.MapRange]; ok {
+					return Val{T: &SetT{it.MapT.Key()}, Terms: []string{it.Seen}}
+				}
+			}
+		}
+		specFail("%s used outside a matching range loop", name)
 	}
 	// ghost state
 	if strings.HasPrefix(name, "$") {
@@ -635,6 +673,12 @@ func (env *SpecEnv) evalCall(x *SExpr) Val {
 			i, j, i, i, j, j, sv.Terms[0], sv.Terms[2], i, sv.Terms[2], j))
 	case "mapref":
 		return mkInt(t0(0))
+	case "typetag":
+		return mkStr(app("iface_tag", t0(0)))
+	case "ifaceref":
+		// the pointer wrapped by an interface value, typed by the second argument (a type text)
+		t := env.resolveType(x.Args[1].String())
+		return Val{T: t, Terms: []string{app("iface_int", t0(0))}}
 	}
 	// user-defined spec function
 	if sf := env.st.eng.specFuncs[x.Name]; sf != nil {
@@ -644,7 +688,7 @@ func (env *SpecEnv) evalCall(x *SExpr) Val {
 	return Val{}
 }
 
-// seqEq: forall k in [0,n): a[ai+k] == b[bi+k]  (and equal length when full)
+// seqEq: forall j in [ai, ai+n): a[j] == b[j-ai+bi]  (and equal length when full)
 func (env *SpecEnv) seqEq(a Val, ai string, b Val, bi string, n string, full bool) string {
 	if !isSlice(a.T) || !isSlice(b.T) {
 		specFail("sequence comparison on non-slices %v %v", a.T, b.T)
@@ -652,17 +696,23 @@ func (env *SpecEnv) seqEq(a Val, ai string, b Val, bi string, n string, full boo
 	env.st.eng.counter++
 	k := sym(fmt.Sprintf("k?%d", env.st.eng.counter))
 	var cs []string
-	for i := range a.Terms[2:] {
-		ia, ib := k, k
-		if ai != "0" {
-			ia = app("+", ai, k)
+	ib := k
+	if ai != bi {
+		ib = app("+", app("-", k, ai), bi)
+		if ai == "0" {
+			ib = app("+", k, bi)
+		} else if bi == "0" {
+			ib = app("-", k, ai)
 		}
-		if bi != "0" {
-			ib = app("+", bi, k)
-		}
-		cs = append(cs, eq(sel(a.Terms[2+i], ia), sel(b.Terms[2+i], ib)))
 	}
-	q := fmt.Sprintf("(forall ((%s Int)) (=> (and (<= 0 %s) (< %s %s)) %s))", k, k, k, n, and(cs...))
+	for i := range a.Terms[2:] {
+		cs = append(cs, eq(sel(a.Terms[2+i], k), sel(b.Terms[2+i], ib)))
+	}
+	hi := app("+", ai, n)
+	if ai == "0" {
+		hi = n
+	}
+	q := fmt.Sprintf("(forall ((%s Int)) (! (=> (and (<= %s %s) (< %s %s)) %s) :pattern ((select %s %s))))", k, ai, k, k, hi, and(cs...), a.Terms[2], k)
 	if full {
 		return and(eq(a.Terms[0], b.Terms[0]), q)
 	}
